@@ -86,6 +86,7 @@ def injection(world, pos):
     if cls == "NONBLANK" and not world.get("python"):
         kinds.append("missing_delim")
         kinds.append("missing_delim")
+        kinds.append("missing_delim_q")
     kind = r.pick(kinds)
     name = grammar.token(r, "]" + C + "[", 1, 6, first_forbid=" \t")
     name = name.rstrip(" \t") or "s"
@@ -99,12 +100,18 @@ def injection(world, pos):
         line = grammar.blanks(r, 0, 2) + "[" + grammar.blanks(r, 0, 2)        # nothing but the opening bracket: no closing one
     if world.get("python"):
         pass          # in python style a comment character behind text is part of the text: no trailing comments here
-    elif kind != "missing_delim" and cls != "NONE" and r.chance(0.2):
+    elif not kind.startswith("missing_delim") and cls != "NONE" and r.chance(0.2):
         line += grammar.blanks(r, 1, 2) + r.pick(C) + grammar.token(r, C + '"', 0, 6, inner_blank=True)     # a trailing comment does not heal the line
-    elif kind != "missing_delim" and cls != "NONE" and len(C) >= 2 and r.chance(0.25):
+    elif not kind.startswith("missing_delim") and cls != "NONE" and len(C) >= 2 and r.chance(0.25):
         # ... nor does a comment that contains further comment characters (in any order) and a closing bracket
         c1, c2 = r.sample(list(C), 2)
         line += " " + c1 + " ] " + c2 + " z" + r.pick(["", " ]"])
+    if kind == "missing_delim_q":
+        # the text behind the key contains a delimiter character - inside double quotes.  A line that holds a delimiter
+        # is never the continuation of the value above it: missing delimiter, wherever the line stands
+        key = grammar.token(r, " \t" + D + C + '"', 1, 5, first_forbid="[")
+        line = key + grammar.blanks(r, 1, 2) + '"' + grammar.token(r, D + C + '"', 1, 4) + r.pick([c_ for c_ in D]) + grammar.token(r, D + C + '"', 1, 4) + '"'
+        return line, "missing_delim", "missing_delim_q"
     if kind == "missing_delim":
         key = grammar.token(r, " \t" + D + C + '"', 1, 5, first_forbid="[")
         text = grammar.token(r, D + C + '"', 1, 6, first_forbid=" \t", inner_blank=True).rstrip(" \t") or "t"
